@@ -8,6 +8,7 @@ import (
 	"runtime/debug"
 	"sort"
 	"strings"
+	"time"
 
 	"github.com/gofrs/uuid/v5"
 	clover "github.com/ostafen/clover/v2"
@@ -132,10 +133,22 @@ func (e *Exec) Finish() {
 	e.Stats.StoreCalls += e.Ctl.TotalCalls
 	if !e.closed && e.DB != nil {
 		e.Ctl.ClearPlan()
-		func() {
+		if e.Ctl.TxOpen != 0 && e.Be.Real() {
+			// a transaction was leaked (already reported): closing a real engine
+			// would wait for it forever; the process abandons the handle instead
+			e.closed = true
+			return
+		}
+		done := make(chan struct{})
+		go func() {
+			defer close(done)
 			defer func() { recover() }()
 			e.DB.Close()
 		}()
+		select {
+		case <-done:
+		case <-time.After(20 * time.Second):
+		}
 		e.closed = true
 	}
 }
@@ -384,7 +397,7 @@ func (e *Exec) judge(err error, want string, okProps []string, what string) outc
 	if e.Ctl.FaultFired {
 		e.checked("fault-reported")
 		if err == nil {
-			e.fail([]string{"C04"}, "C04/fault-swallowed", fmt.Sprintf("%s: the store failed at %s call #%d of the operation but the operation returned success", what, e.Ctl.FaultKind, e.cur.Fault), map[string]string{"faultKind": e.Ctl.FaultKind.String()})
+			e.fail(append([]string{"C04"}, opProps[e.cur.K]...), "C04/fault-swallowed", fmt.Sprintf("%s: the store failed at %s call #%d of the operation but the operation returned success", what, e.Ctl.FaultKind, e.cur.Fault), map[string]string{"faultKind": e.Ctl.FaultKind.String()})
 			return outBad
 		}
 		return outFailed
@@ -1214,6 +1227,11 @@ func (e *Exec) stepOne(op *Op) (qr queryResult) {
 		e.compareAllAs([]string{"C05"}, "C05/reopen-state", "clean close and reopen")
 		if e.V == nil {
 			e.Audit()
+			if e.V != nil && e.V.Rule != "C20/panic" {
+				// indexes, counts and catalog must be intact after a reopen, without any rebuild
+				e.V.Props = append([]string{"C05"}, e.V.Props...)
+				e.V.Rule = "C05/reopen-audit(" + e.V.Rule + ")"
+			}
 		}
 
 	case "CrashRestart":
@@ -1231,6 +1249,10 @@ func (e *Exec) stepOne(op *Op) (qr queryResult) {
 		e.compareAllAs([]string{"C05"}, "C05/crash-state", "crash between operations and reopen")
 		if e.V == nil {
 			e.Audit()
+			if e.V != nil && e.V.Rule != "C20/panic" {
+				e.V.Props = append([]string{"C05"}, e.V.Props...)
+				e.V.Rule = "C05/reopen-audit(" + e.V.Rule + ")"
+			}
 		}
 
 	case "AfterClose":
